@@ -26,9 +26,13 @@
   offers, the hosts whose offer is missing (Model/DeployAttempts.lean). The model's acquireTasks (`Trans.acquire
   AcqCfg.code`) is run first; everything else — the environment choices above included — is evaluated on the workflow it
   leaves behind, the NewEnvironment observation carries the attempts `(att (i…) …)`, and the verdict is `Trans.judgeO`
-  (the workflow as offered in the last round that took place, plus the clause about the attempts). A fifth environment
-  choice exists only here: the verdict of an offers round lost on its way to acquireTasks (`OWorkflow.verdictLost`,
-  finding deploy_verdict_lost) — considered only when the observation carries the harness' attestation `verdict-lost`.
+  (the workflow as offered in the last round that took place, plus the clause about the attempts). Which offers round
+  is over before acquireTasks is at its receive (`OWorkflow.notListening`) is NOT inferred: for the code as it is it makes
+  no difference (`C02_listening_irrelevant_code` — the channel keeps the verdict, `fix: acquireTasks cannot miss the
+  verdict of its offers round`). The harness still looks for the picture of the former finding deploy_verdict_lost
+  (goroutine dump: acquireTasks parked at its receive after the request failed; atom `verdict-lost` in the NewEnvironment
+  observation, with or without an `offers` element); the model never answers that atom, so such a run is a disagreement,
+  and `judge` / `judgeO` do not name the corner: a regression is a plain VIOLATION.
 
   Executor / agent loss: an outcome may be written `(xfail BASE WHEN UPD)` / `(afail BASE WHEN UPD)` (BASE = ok | stay |
   err | silent, WHEN = before | after, UPD = 1 | 0): the executor / agent of that task is lost while the command is
@@ -129,11 +133,11 @@ def parseScenario (x : SExp) : Option (Cfg × Scenario × Option Offers) :=
   | _ => none
 
 /-- The scenario with its offers rounds, as Model/DeployAttempts has it. -/
-def toO (sc : Scenario) (off : Offers) (lost : Option Nat := none) : OScenario :=
+def toO (sc : Scenario) (off : Offers) : OScenario :=
   { wf := { calls := sc.wf.calls,
             tasks := (sc.wf.tasks.zip (off.hosts ++ List.replicate (sc.wf.tasks.length - off.hosts.length) 0)).map
               (fun p => { critical := p.1.1, launch := p.1.2, host := p.2 }),
-            rounds := off.rounds, notifyLost := sc.wf.notifyLost, verdictLost := lost },
+            rounds := off.rounds, notifyLost := sc.wf.notifyLost },
     configure := sc.configure, steps := sc.steps }
 
 def rpcName : Rpc → String
@@ -176,6 +180,9 @@ def parseObs : SExp → Option Obs
   | .list [.atom "new", .atom r, .atom s, .atom a, .list cmd, .atom "running-acked"] => do
     pure { ev := none, rpc := ← parseRpc r, state := ← parseSt s, after := ← parseSt a, cmd := ← cmd.mapM? SExp.nat?,
            runningAcked := true }
+  | .list [.atom "new", .atom r, .atom s, .atom a, .list cmd, .atom "verdict-lost"] => do
+    pure { ev := none, rpc := ← parseRpc r, state := ← parseSt s, after := ← parseSt a, cmd := ← cmd.mapM? SExp.nat?,
+           verdictLost := true }
   | .list [.atom "ctl", .atom e, .atom r, .atom s, .atom a, .list cmd] => do
     pure { ev := some (← Ev.parse? e), rpc := ← parseRpc r, state := ← parseSt s, after := ← parseSt a,
            cmd := ← cmd.mapM? SExp.nat? }
@@ -285,22 +292,10 @@ def processLine (line : String) : String :=
             else []
           | none => []
         | none => []
-      -- a verdict lost on its way to acquireTasks (Model/DeployAttempts.lean): only when the harness attests it (goroutine
-      -- dump of the core: acquireTasks still waiting after the request was answered); which attempt's verdict is inferred
-      let implLost := match implObs with
-        | some (o :: _) => o.verdictLost
-        | _ => false
-      let lostCands : List (Scenario × String × Option Nat) :=
-        match offers with
-        | some off =>
-          if implLost then
-            (List.range attemptLimit).map (fun k => (sc0, showObs (runO AcqCfg.code cfg (toO sc0 off (some k))), some k))
-          else []
-        | none => []
-      let outs : List (Scenario × String × Option Nat) :=
-        lostCands ++ cands.map (fun c => (c, showObs (runM c), none)) ++ lost.map (fun p => (p.1, p.2, none))
+      -- (no candidate explains an observation with the atom `verdict-lost`: see the head of the file)
+      let outs : List (Scenario × String) := cands.map (fun c => (c, showObs (runM c))) ++ lost
       let dflt := variant sc false false
-      let chosen := (outs.find? (fun p => p.2.1 == impl)).getD (dflt, showObs (runM dflt), none)
+      let chosen := (outs.find? (fun p => p.2 == impl)).getD (dflt, showObs (runM dflt))
       let (spec, hyp) :=
         match implObs with
         | none => (false, "-")
@@ -309,15 +304,15 @@ def processLine (line : String) : String :=
             | none => judge chosen.1 os
             | some off =>
               -- the chosen environment choices (requests' outcomes; TASK_RUNNING overtaking / ACTIVE notification
-              -- dropped; a lost verdict) on the scenario as written; what was deployed is judged on the last offers
-              -- round that took place according to the observed attempts
+              -- dropped) on the scenario as written; what was deployed is judged on the last offers round that took
+              -- place according to the observed attempts
               let c := chosen.1
               let scripts : Workflow := if c.wf.notifyLost then early sc0.wf else sc0.wf
-              judgeO (toO { wf := scripts, configure := c.configure, steps := c.steps } off chosen.2.2) os
+              judgeO (toO { wf := scripts, configure := c.configure, steps := c.steps } off) os
           match verdict with
           | none => (true, "-")
           | some h => (false, h)
-      s!"{chosen.2.1}\t{if spec then 1 else 0}\t{hyp}"
+      s!"{chosen.2}\t{if spec then 1 else 0}\t{hyp}"
     | none => "BADINPUT\t0\t-"
   | _ => "BADLINE\t0\t-"
 
